@@ -32,6 +32,7 @@ pub fn profile() -> Profile {
     p.workgroup = 1;
     p.unused_structs = (0, 0);
     p.nonascii = 1;
+    p.keyword_names = 2;
     p
 }
 
